@@ -147,6 +147,8 @@ def run(F, rep, tier):
     rep.attempt(units.rule_byte_index, F, rep, "C18.R3")
     rep.attempt(rule_r4, F, rep)
     rep.attempt(rule_r5, F, rep)
+    from . import stdlike
+    rep.attempt(stdlike.rule_lookalikes, F, rep, "C20.R9")
     rep.assume("join/split/strip/replace/trim identities are delegated to str::{split,splitn,rsplitn,replace,"
                "strip_prefix,trim_matches} and not decided; `+- constant` after a search is accepted (documented miss)")
     return EXPLANATION
